@@ -25,16 +25,20 @@ class Subprocess:
     def __init__(self):
         self.answers = {}
         self.calls = []
+        self.filters = {}
 
     def set(self, **answers):
         self.answers = answers
         self.calls = []
+        self.filters = {}
 
     def _answer(self, cmd, binary):
         text = cmd if isinstance(cmd, str) else " ".join(cmd)
         self.calls.append(text)
         name = text.split()[0]
         out, err, rc = self.answers.get(name, ("", "no script for %s" % name, 127))
+        if name in self.filters:
+            out = self.filters[name](text, out)
         return FakeProc(out, err, rc, binary)
 
     def start_process(self, cmd, cwd=None, env=None, shell=True):
@@ -45,6 +49,27 @@ class Subprocess:
 
 
 SUB = Subprocess()
+
+
+def sacct_reply(own_ids):
+    """The `--jobs=<req>` contract of `sacct` (Model/Sched.lean `acctReply`): of the scripted
+    accounting text, rows whose job field is one of the conductor's own job ids come back only
+    for the ids the command line asks about; every other row is returned whatever the request."""
+    import re
+    own = set(own_ids)
+
+    def reply(cmd, out):
+        m = re.search(r"--jobs=(\S*)", cmd)
+        req = set(m.group(1).split(",")) if m else set()
+        rows = out.split("\n")
+        keep = rows[:2]
+        for r in rows[2:]:
+            jid = re.split(r"\s+", r)[0]
+            if jid in own and jid not in req:
+                continue
+            keep.append(r)
+        return "\n".join(keep)
+    return reply
 
 
 def install_subprocess():
